@@ -70,7 +70,11 @@ def skeleton_template(name, lvl, v, child, vi=0):
         t["blocks"]["b2"] = (False, False, [("s", "n" + L), ("u", 0)])
         t["tops"].append(("i", ("b", "b1")))
     else:
-        t["blocks"]["b2"] = (v[0] == "loop", False, [("v", "i"), ("s", "l" + L), ("u", 0)])
+        t["blocks"]["b2"] = (v[0] == "loop", False, [("v", "i"), ("v", "loop.index"), ("s", "l" + L)] + ([("u", 0)] if child else []))
+        # the block site sits directly in the loop body or below an if / with statement
+        w = [None, "if", "with", "ifwith"][(lvl + vi) % 4]
+        if w:
+            t["wraps"] = {"b2": w}
         t["tops"].append(("i", ("l", "i", ["1", "2"], [("b", "b2"), ("s", ",")])))
     t["tops"].append(("i", ("s", "]")))
     return t
